@@ -9,6 +9,30 @@ CHECKS = {
    technique="explicit-state search (BFS over canonical cue lists, every small list as initial state) with the real Add as transition function, compared with a reference model on every transition",
    text="Every list in the small scope x every shift is executed on the real code and compared with an 11-line executable specification (survivors, order, pointer identity, content, times, inverse law); chains of shifts explored breadth-first with state deduplication. Exhaustive within the stated grid; nothing is sampled.",
    note="Trusted: Go toolchain/stdlib, the reference model refops.Add. Bound: <=3-4 cues on grids 0..5, units 1ns/1ms/1s/1h+1ms; values outside the grid only through scaling."),
+ "C10": dict(level="model_checking", design="§3 C10, §0.1 E3",
+   technique="explicit-state search: every start-ordered small cue list as a state, the real Fragment as transition function, compared with per-cue cutting on every transition; second-level transitions from fragmented states",
+   text="The property's own exhaustive scope (<=3 cues on 0..9, 4 cues on 0..6, two texts, f in 1..5; thorough) is enumerated completely and every Fragment call on the real code is compared with an executable per-cue cutting specification (multiset of pieces, order, no interior multiple left, style/region objects carried).",
+   note="Trusted: Go toolchain/stdlib, refops.Fragment. Bound: the grids above with units 1ns/1ms/1s/1h+1ms; the 'randomly for larger lists' clause is not claimed."),
+ "C11": dict(level="model_checking", design="§3 C11, §0.1 E3",
+   technique="explicit-state search: every small cue list (any order) as a state, the real Unfragment as transition function vs. a connected-components model, plus invariants (no touching same-text cues, same on-screen texts at every grid instant) and the inverse law from every fragmented state",
+   text="Every list in the small scope is unfragmented by the real code and compared with the closure specification and with the property's own invariants; the inverse law Unfragment(Fragment(L,f)) = L is checked for every admissible list and period in scope, with the fragment step taken both in the model and by the real code.",
+   note="Trusted: Go toolchain/stdlib, refops.Unfragment/Fragment. Single-line texts. The 'randomly beyond' clause is not claimed."),
+ "C12": dict(level="model_checking", design="§3 C12, §0.1 E3",
+   technique="explicit-state search over cue lists and definition maps with the real Order/Merge as transition functions vs. an insertion-sort/union model; includes every 13- and 14-cue list over two start values (smallest size where an unstable sort can differ)",
+   text="All small lists and pairs of lists, all 4096 overlap patterns of style/region identifiers and three ways of constructing the receiver are executed on the real code and compared with the model on cue identity/order, on definitions (receiver wins) and on a before/after snapshot of the argument.",
+   note="Trusted: Go toolchain/stdlib, refops.Order/Merge. Bound: <=4-5 cues plus the 2^13/2^14 (thorough 3^13, 2^16) families; 3 style ids x 3 region ids."),
+ "C13": dict(level="model_checking", design="§3 C13, §0.1 E3",
+   technique="explicit-state enumeration of all reference graphs over 3 styles/2 regions/<=2 cues with the real Optimize/RemoveStyling as transition functions vs. a harness-side reachability closure and a reflective no-styling walk",
+   text="Every reference graph in scope (all parent forests, all region->style refs, cue/run/region references, unused and shared definitions, depth-4/5 chains) is optimized by the real code; kept ids must equal the reachability closure, every remaining reference must resolve, cues untouched, idempotent, empty list untouched. RemoveStyling is checked on the same graphs.",
+   note="Trusted: Go toolchain/stdlib, refops.Reach. Definitions stored under their own id. The write->read clause is covered through C07's history exploration (optimize op) once a destination codec is involved."),
+ "C14": dict(level="model_checking", design="§3 C14, §0.1 E3",
+   technique="explicit-state search: every well-formed small timeline x every d x filler flag with the real ForceDuration as transition function vs. the property sentence as a list comprehension",
+   text="All timelines of <=3 (thorough 4) cues on 0..5 x all d in 1..7 (and d+-1ms) x filler on/off are executed on the real code and compared cue by cue with the specification, including pointer identity and content of kept cues.",
+   note="Trusted: Go toolchain/stdlib, refops.ForceDuration. Preconditions as stated by the property."),
+ "C15": dict(level="model_checking", design="§3 C15, §0.1 E3",
+   technique="exhaustive enumeration of boundary set x reference quadruples on the real ApplyLinearCorrection, each result compared with exact big-rational arithmetic",
+   text="Every cue over the boundary set in [0,24h] x 672 quadruples (all listed slopes incl. NTSC/PAL ratios, offsets, both orders of reference points) is run on the real code and compared with the exact rational affine map to within 1us; length scaling, order preservation, untouched content checked.",
+   note="Trusted: Go toolchain/stdlib, math/big. Finite boundary set: values between the listed boundaries are not covered."),
 }
 
 def main():
